@@ -1,4 +1,5 @@
 """C10 — reading a platform from a TLE collection returns that platform's entry or fails."""
+import fnmatch
 import io
 import json
 import os
@@ -32,7 +33,11 @@ RULE = ("generated collections of 0-30 checksum-valid entries x naming style {al
         "same reads of given collections while the TLES environment variable points at OTHER collections (holding the "
         "requested platform with different elements, or lacking it; restored afterwards); bulk reads "
         "(Downloader.read_tle_files over 1-2 files, read_xml_admin_messages, fetch_plain_tle over 1-2 URIs and "
-        "fetch_spacetrack with `requests` interposed); generated platforms files (names of several words with '#', digits, "
+        "fetch_spacetrack with `requests` interposed; the three file readers - read_tle_files, read_xml_admin_messages, "
+        "read_tles_from_mmam_xml_files - over 2-5 paths of one directory whose configured order agrees with, opposes or is "
+        "unrelated to the lexical order of the names (numbered ..._NO_9 before ..._NO_10, dated newest first, shuffled), "
+        "explicit or through wildcards that each match one file, every file with entries of its own"
+        "); generated platforms files (names of several words with '#', digits, "
         "tabs, leading/trailing blanks; comment lines with '#' in column 0) through read_platform_numbers and, in fresh "
         "interpreters with PYORBITAL_CONFIG_PATH, as the active registry, with requests for registered aliases and for "
         "their leading words; ill-formed texts (truncated, name line at the end) for the exception classes. A case is one read; "
@@ -310,6 +315,39 @@ def gen_platforms_text(rng, entries):
     return text + ("\n" if rng.random() < 0.8 else "")
 
 
+def gen_multi_names(rng, k, ext):
+    """k file names of one directory in the order in which they are to be configured, and what that order is relative to
+    the lexical order of the names."""
+    fam = rng.choice(["numbered", "numbered", "dated-newest-first", "shuffled", "shuffled", "ascending", "descending"])
+    if fam == "numbered":        # ..._NO_8, _NO_9, _NO_10, _NO_11: ascending numbers are not ascending strings
+        first = rng.choice([8, 9, 9, 98, 99, 7, rng.randrange(1, 120)])
+        stem = rng.choice(["AM_ADMIN_MESSAGE_NO_", "tle_NO_", "bulletin-"])
+        names = ["%s%d%s" % (stem, first + i, ext) for i in range(k)]
+    elif fam == "dated-newest-first":
+        day = rng.randrange(k, 28)
+        stem = rng.choice(["tle-202401", "weather_2023-12-", "mmam19991"])
+        names = ["%s%02d%s" % (stem, day - i, ext) for i in range(k)]
+    else:
+        pool = ["weather", "amateur", "stations", "noaa", "resource", "Zulu", "active", "cubesat", "geo", "x", "10", "9", "B", "a"]
+        names = [w + ext for w in rng.sample(pool, k)]
+        if fam == "ascending":
+            names.sort()
+        elif fam == "descending":
+            names.sort(reverse=True)
+    rel = "agrees" if names == sorted(names) else "opposes" if names == sorted(names, reverse=True) else "unrelated"
+    return names, rel
+
+
+def wildcard_for(rng, name, names):
+    """a pattern with '*' that matches *name* and no other file of the directory (None if the draw does not)"""
+    stem, ext = os.path.splitext(name)
+    k = rng.randrange(0, len(stem) + 1)
+    pat = rng.choice([stem + ".*", stem + "*", stem[:k] + "*" + ext, stem[:k] + "*" + stem[k + 1:] + ext, "*" + stem[k:] + ext])
+    if any(c in pat for c in "[]?"):
+        return None
+    return pat if [q for q in names if fnmatch.fnmatchcase(q, pat)] == [name] else None
+
+
 def truncate(rng, text):
     """Ill-formed text: cut in the middle of an entry (exception classes of the scanner)."""
     lines = text.splitlines(True)
@@ -461,6 +499,12 @@ def _exec_jobs(jobs):
                     res.append(["ok"] + [[t.line1, t.line2] for t in ts])
                 except BaseException as e:  # noqa
                     res.append(_outcome_of_exc(e, tlefile) or ["exc", type(e).__name__, str(e)[:80]])
+            elif op == "bulk_xml_fn":
+                try:
+                    ts = tlefile.read_tles_from_mmam_xml_files(job["files"])
+                    res.append(["ok"] + [[t.line1, t.line2] for t in ts])
+                except BaseException as e:  # noqa
+                    res.append(_outcome_of_exc(e, tlefile) or ["exc", type(e).__name__, str(e)[:80]])
             elif op in ("bulk_plain", "bulk_spacetrack"):
                 uris = ["http://pv.invalid/tle/%d.txt" % i for i in range(len(job["bodies"]))]
                 try:
@@ -566,6 +610,21 @@ class World:
         self.jobs.append(job)
         self.meta.append(meta)
 
+    def add_multi(self, op, names, paths, texts, entries, xml_items=None):
+        """one bulk read over the files *names* (holding *texts*) of a directory of their own, configured as *paths*
+        (names or wildcard patterns relative to that directory, in the GIVEN order; every pattern matches one file)"""
+        self.nfile += 1
+        d = os.path.join(self.tmpdir, "%s-multi%d" % (self.tag, self.nfile))
+        os.makedirs(d, exist_ok=True)
+        for name, text in zip(names, texts):
+            with open(os.path.join(d, name), "w", newline="") as f:
+                f.write(text)
+        meta = {"op": op, "names": list(names), "paths": list(paths), "texts": list(texts), "entries": entries,
+                "platforms_txt": self.platforms_text if self.custom else None}
+        if xml_items is not None:
+            meta["xml_items"] = xml_items
+        self.add({"op": op, "files": [os.path.join(d, q) for q in paths]}, meta)
+
     def archive(self, files):
         """the collections *files* in a directory of their own -> glob pattern for TLES"""
         self.nfile += 1
@@ -667,6 +726,27 @@ def build_world(ctx, tmpdir, platforms_text, tag, n_coll, with_bulk=True, illfor
                 w.add({"op": "bulk_files", "files": [f1, f2]},
                       {"op": "bulk_files", "texts": [text, t2], "entries": [[e["l1"], e["l2"]] for e in entries + e2],
                        "platforms_txt": w.platforms_text if w.custom else None})
+            # several sources in a GIVEN order that need not be the lexical order of their names
+            op = ("bulk_files", "bulk_xml", "bulk_xml_fn")[ci % 3]
+            k = rng.choice([2, 2, 3, 4, 5])
+            names, rel = gen_multi_names(rng, k, ".tle" if op == "bulk_files" else ".xml")
+            mode = rng.choice(["explicit", "explicit", "wildcards", "mixed"])
+            paths = []
+            for q in names:
+                pat = wildcard_for(rng, q, names) if (mode == "wildcards" or (mode == "mixed" and rng.random() < 0.5)) else None
+                paths.append(pat or q)
+            m_entries, m_texts, m_items = [], [], []
+            for _ in names:
+                ek = gen_entries(rng, rng.randrange(1, 4), "mixed" if op == "bulk_files" else "none", reg_items)
+                m_entries += [[e["l1"], e["l2"]] for e in ek]
+                if op == "bulk_files":
+                    m_texts.append(render(rng, ek))
+                else:
+                    xt, xi = xml_text(rng, ek)
+                    m_texts.append(xt)
+                    m_items += xi
+            w.multi_orders = getattr(w, "multi_orders", []) + [rel + "/" + ("wildcard" if any("*" in q for q in paths) else "explicit")]
+            w.add_multi(op, names, paths, m_texts, m_entries, m_items if op != "bulk_files" else None)
         if illformed and n > 0 and ci % 3 == 0:
             bad = truncate(rng, render(rng, entries, blanks=False))
             w.add_reads(entries, bad, None, reqs[:4] + reqs[-1:], False)
@@ -718,7 +798,7 @@ def correspond(ctx):
                         lines.append("c10bulk " + line_args(source_lines("stringio", t)))
                         idx.append((i, "part"))
                     idx.pop()
-                elif m["op"] == "bulk_xml":
+                elif m["op"] in ("bulk_xml", "bulk_xml_fn"):
                     lines.append("c10xml " + line_args([x for it in m["xml_items"] for x in it]))
                 elif m["op"] == "plat":
                     lines.append("c10plat %d %s" % (1 if m["upper"] else 0, line_args(source_lines("textfile", m["text"]))))
@@ -774,17 +854,19 @@ def judge(meta, got):
             diff = sorted(set(want.items()) ^ set(have.items()))[:4] if isinstance(have, dict) else have
             return ("platforms_file_map", diff, "leading words -> last token", "read_platform_numbers")
         return None
-    if op in ("bulk_files", "bulk_xml", "bulk_plain", "bulk_spacetrack"):
+    if op in ("bulk_files", "bulk_xml", "bulk_xml_fn", "bulk_plain", "bulk_spacetrack"):
         if meta["entries"] is None:
             return None
         want = ["ok"] + [[a.strip(), b.strip()] for a, b in meta["entries"]]
         if got != want:
             kind = "bulk_xml_empty" if (op == "bulk_xml" and not meta["entries"]) else "bulk_not_all_in_order"
-            site = {"bulk_xml": "read_tles_from_mmam_xml_files", "bulk_files": "Downloader.read_tle_files",
+            site = {"bulk_xml": "read_tles_from_mmam_xml_files", "bulk_xml_fn": "read_tles_from_mmam_xml_files", "bulk_files": "Downloader.read_tle_files",
                     "bulk_plain": "Downloader.fetch_plain_tle", "bulk_spacetrack": "Downloader.fetch_spacetrack"}[op]
             return (kind, got if got[0] != "ok" else {"n": len(got) - 1, "first_diff": next(
-                (i for i, (x, y) in enumerate(zip(got[1:], want[1:])) if x != y), min(len(got), len(want)) - 1)},
-                "every entry, in order (%d)" % (len(want) - 1), site)
+                (i for i, (x, y) in enumerate(zip(got[1:], want[1:])) if x != y), min(len(got), len(want)) - 1),
+                "same_entries_in_another_order": sorted(got[1:]) == sorted(want[1:])},
+                "every entry, in order (%d)" % (len(want) - 1) + (
+                    "; sources in the configured order %r" % (meta["paths"],) if meta.get("paths") else ""), site)
         return None
     if op != "read" or not meta["wellformed"]:
         return None
@@ -825,6 +907,8 @@ def oracle(ctx):
         ws = worlds(ctx, tmpdir, ctx.size(60, 500), ctx.size(2, 8), ctx.size(12, 40))
         for w in ws:
             impl = w.run()
+            for o_ in getattr(w, "multi_orders", []):
+                ctx.bump("bulk_sources_given_order_vs_lexical", o_)
             for m, got in zip(w.meta, impl):
                 if not ascii_ok(json.dumps(m, default=str, ensure_ascii=False)):
                     continue
@@ -862,8 +946,11 @@ def run_meta(meta, tmpdir):
             job["tles"] = w.archive(meta["tles_env"]["files"])
     elif op in ("bulk_plain", "bulk_spacetrack"):
         job = {"op": op, "bodies": meta["texts"]}
-    elif op in ("bulk_files", "bulk_xml"):
-        job = {"op": op, "files": [w.newfile(t, xml=(op == "bulk_xml")) for t in meta["texts"]]}
+    elif op in ("bulk_files", "bulk_xml", "bulk_xml_fn") and meta.get("names"):
+        w.add_multi(op, meta["names"], meta["paths"], meta["texts"], meta["entries"], meta.get("xml_items"))
+        return w.run()[0]
+    elif op in ("bulk_files", "bulk_xml", "bulk_xml_fn"):
+        job = {"op": op, "files": [w.newfile(t, xml=(op != "bulk_files")) for t in meta["texts"]]}
     elif op == "plat":
         job = {"op": "plat", "upper": meta["upper"], "file": w.newfile(meta["text"])}
     else:
